@@ -1179,6 +1179,10 @@ func main() {
 		childMain(os.Args[2:])
 		return
 	}
+	if len(os.Args) > 1 && os.Args[1] == "-wirechild" {
+		wireChildMain(os.Args[2:])
+		return
+	}
 	run := vh.NewRun("C16", "exploration")
 	os.MkdirAll(filepath.Join(run.Scratch, "log"), 0o755)
 	logging.Init(filepath.Join(run.Scratch, "log"), "c16", "error", 1, true)
@@ -1207,7 +1211,14 @@ func main() {
 		base     int
 	}
 	var jobs []job
-	if run.Only >= 0 {
+	nWire := run.N(240, 6000)
+	wireOnly := -1
+	if run.Only >= nRT+nMut {
+		wireOnly = run.Only - nRT - nMut
+	}
+	if wireOnly >= 0 {
+		// a wire case is replayed on its own below
+	} else if run.Only >= 0 {
 		if run.Only < nRT {
 			jobs = append(jobs, job{"rt", run.Only, run.Only + 1, 0})
 		} else {
@@ -1226,7 +1237,10 @@ func main() {
 		jb := jobs[j]
 		p.runRange(jb.mode, jb.from, jb.to, jb.base, exe, true, 0)
 	})
-	if run.Only >= 0 {
+	if run.Only < 0 || wireOnly >= 0 {
+		runWire(run, exe, nRT+nMut, nWire, wireOnly)
+	}
+	if run.Only >= 0 && wireOnly < 0 {
 		// replay: show what happened to this one input
 		jb := jobs[0]
 		cmd := exec.Command(exe, "-child", "-v", "-mode", jb.mode, "-seed", fmt.Sprint(run.Seed), "-from", fmt.Sprint(jb.from), "-to", fmt.Sprint(jb.to),
@@ -1339,7 +1353,12 @@ func main() {
 			run.Inconclusive("the mutated inputs did not produce both accepted and rejected decodes")
 		}
 	}
-	run.Finish("case = one input (hash of its bytes): a round trip of one generated message, or one mutated/random byte string given to DecodeMessage; "+
-		"non-trivial = round trip of a message with every transported field populated, or a mutated input that is not byte-identical to a valid encoding",
+	if run.Only < 0 && (run.Counter("wire_messages_equal") == 0 || run.Counter("wire_frames_equal") == 0 || run.Counter("frames_delivered_in_pieces") == 0) {
+		run.Inconclusive("the wire cases delivered no message, no raw frame or no frame in pieces")
+	}
+	run.Finish("case = one input (hash of its bytes): a round trip of one generated message, or one mutated/random byte string given to DecodeMessage, "+
+		"or one wire case (2-6 messages / raw frames written over loopback TCP to a real connection.Conn in seeded pieces - whole, header byte by byte, cut at random offsets, fixed segment sizes, "+
+		"frames coalesced - and read back through the real fractal reader or Conn.Read; a quarter of them end with a frame above the 2 MiB receive limit, sent in full or announced only); "+
+		"non-trivial = round trip of a message with every transported field populated, or a mutated input that is not byte-identical to a valid encoding, or a wire case with a frame in pieces, of 32 KiB or more, or above the limit",
 		run.N(20000, 1000000))
 }
